@@ -121,6 +121,36 @@ def programs(ctx, flavour, types, nprog, nins):
     return plan
 
 
+def aliasing_programs(ctx, flavour, types, regs):
+    """every instruction of the flavour with EVERY assignment of its register fields (d, a, b, c) over `regs` - all patterns of
+    destination/operand aliasing (x = f(x, x), x op= x, select(m, x, x) ...), packed 40 instructions to a program"""
+    ops = table()
+    rng = ctx.rng
+    plan = []
+    for t, nb, signed in types:
+        bits = 8 * nb
+        isint = t[0] in "iu"
+        lat = vf.int_lattice(bits) if isint else vf.float_lattice(bits)
+        L = 64 // nb
+        ins = []
+        for i, o in enumerate(ops):
+            if flavour not in o["fl"] or not _kind_ok(o, t, signed):
+                continue
+            nf = {"mov": 2, "ew1": 2, "cew1": 1, "cewi": 1, "ewi": 2, "ew2": 3, "ewm": 3, "cew2": 2, "cmp": 3, "mm2": 3, "mm1": 2, "mmov": 2, "cmm2": 2, "ew3": 4, "sel": 4}[o["cls"]]
+            import itertools
+            for combo in itertools.product(regs, repeat=nf):
+                f = list(combo) + [rng.choice(regs) for _ in range(4 - nf)]
+                if o["cls"] == "sel":          # d, a, b, c(mask)
+                    pass
+                imm = rng.randrange(bits) if o["cls"] in ("ewi", "cewi") else 0
+                ins.append(bytes([i + 1, f[0], f[1], f[2], f[3], imm]))
+        rng.shuffle(ins)
+        for k in range(0, len(ins), 40):
+            rows = [vf.hexrow(vf.pack_lanes([rng.choice(lat) if rng.random() < 0.5 else rng.getrandbits(bits) for _ in range(L)], nb)) for _ in range(3)]
+            plan.append("prog %s %s 0 %s %s %s %s" % (flavour, t, rows[0], rows[1], rows[2], (b"\0" + b"".join(ins[k:k + 40])).hex()))
+    return plan
+
+
 def corrupt(e, rng):
     """binding probe: one bit of the row written by one instruction is flipped (Boolean rows: one lane entry)"""
     r = e.get("r")
@@ -144,7 +174,8 @@ def corrupt(e, rng):
 def run(ctx, flavour, types, nprog, nins, tag=None):
     """generate, execute on every architecture, validate with T_Prog (the machine's own registers feed every step)"""
     tag = tag or ("prog_" + flavour)
-    plan = lanes.replay_plan(ctx.replay) if ctx.replay else programs(ctx, flavour, types, nprog, nins)
+    plan = lanes.replay_plan(ctx.replay) if ctx.replay else (programs(ctx, flavour, types, nprog, nins)
+                                                               + aliasing_programs(ctx, flavour, types, ctx.q((0, 1), (0, 1, 2))))
     plan = [ln for ln in plan if ln.startswith("prog ")]
     if not plan:
         return
